@@ -338,6 +338,12 @@ fn sql_case(rt: &tokio::runtime::Runtime, template: &SessionState, base: &Config
         why = format!("entries after SET differ from the API path at {:?}", diff(&api_e, &sql_e));
     }
     let want = get(&api_e, key);
+    // SHOW must work for every listed key; it may legitimately stop working only after an ACCEPTED change of the
+    // options SHOW itself depends on (information_schema switched off, default catalog / schema renamed)
+    let fragile = ["datafusion.catalog.information_schema", "datafusion.catalog.default_catalog", "datafusion.catalog.default_schema"];
+    if why.is_empty() && shown.is_err() && want.is_some() && !(fragile.contains(&key) && api_r.is_ok()) {
+        why = "SHOW failed on a listed key".into();
+    }
     let (shown_j, show_err) = match &shown {
         Ok(v) => {
             if why.is_empty() {
@@ -389,6 +395,7 @@ fn main() {
     let n: u64 = arg(&args, "--n", "4").parse().unwrap(); // random texts per key; SQL cases per key = n as well
     let hist_n: u64 = arg(&args, "--hist", "20").parse().unwrap();
     let probe_key = arg(&args, "--key", "");
+    let sql_only = arg(&args, "--sqlkey", "");
     let probe_text = arg(&args, "--text", "\u{1}");
     std::panic::set_hook(Box::new(|_| {}));
     let mut rng = Rng::new(seed);
@@ -434,6 +441,9 @@ fn main() {
 
     // ---------------- per configuration, per key
     for cfgn in ["session", "csv", "json", "parquet"] {
+        if !sql_only.is_empty() {
+            break;
+        }
         let c0 = new_cfg(cfgn);
         let e0 = ents(&c0);
         let keys: Vec<String> = e0.iter().map(|(k, _)| k.clone()).collect();
@@ -502,6 +512,9 @@ fn main() {
         .build();
     let e0 = ents(&Cfg::Session(base.clone()));
     for (k, v) in &e0 {
+        if !sql_only.is_empty() && &sql_only != k {
+            continue;
+        }
         let mut texts: Vec<String> = vec![];
         if let Some(p) = v {
             texts.push(p.clone());
